@@ -89,17 +89,8 @@ def _vfold(node, env):
     return fold(node, env)
 
 
-def run(ctx):
-    import numpy as np
-    import sympy as sp
-    repo = ctx.repo
-    md = repo.mod(MD)
-    ctx.rule("R1", "coefficient table equals Niklasson Table I, sum c = 0, root locus inside the unit disk (exhaustive k=3..9)")
-    ctx.rule("R2", "executed recurrence: coefficients built by __init__ and every propagate variant sum to one; D coefficient = delta*kappa")
-    ctx.rule("R3", "circular history buffer: write slot, coefficient window and restart read agree for every phase and every m")
-    ctx.rule("R4", "shadow energy E(D,P) with D=P equals the SCF energy expression")
-    ctx.rule("R5", "history initialisation and resume")
-
+def _r1_r2_literal(ctx, md, np):
+    """R1 / R2 read from the literal coefficient table of XL_BOMD.__init__ and constant propagation of the constructor"""
     init = md.func("XL_BOMD.__init__")
     table_stmt = None
     for st in ast.walk(init):
@@ -181,6 +172,65 @@ def run(ctx):
                   f"k={k}: built coefficients {coeff} / coeff_D {coeff_D} / m {m} are not the published recurrence {want} / {kappa}")
         ctx.check(abs(coeff_D + sum(coeff[:m]) - 1.0) < 1e-12, "R2", md, init, "XL_BOMD.__init__", f"sum(k={k})",
                   f"k={k}: coeff_D + sum(coeff) = 1 (stationary density is reproduced)", f"k={k}: coefficients sum to {coeff_D + sum(coeff[:m])}")
+
+
+def _r1_r2_interpreted(ctx, md, np):
+    from ..assembly import interpreted_xl_constructor
+    init = md.func("XL_BOMD.__init__")
+    built = interpreted_xl_constructor(ctx.repo)
+    ctx.check(sorted(built) == list(range(3, 10)), "R1", md, init, "XL_BOMD.__init__", "supported k", "the constructor builds coefficients for k = 3..9",
+              f"the constructor builds coefficients only for k in {sorted(built)} (k = 3..9 are published)")
+    ctx.exhaustive = True
+    for k, b in sorted(built.items()):
+        sk, sa, sc = NIKLASSON[k]
+        m, coeff, coeff_D = b["m"], [float(x) for x in b["coeff"]], float(b["coeff_D"])
+        want = [sa * x for x in sc]
+        want[0] += 2.0 - sk
+        want[1] -= 1.0
+        same = m == k + 1 and len(coeff) == 2 * m and all(abs(x - y) < 1e-12 for x, y in zip(coeff, want + want)) and abs(coeff_D - sk) < 1e-12
+        ctx.check(same, "R1", md, init, "XL_BOMD.__init__", f"coeffs[{k}]", f"k={k}: the built recurrence weights equal the published (kappa, alpha c_0..c_k) of Niklasson Table I",
+                  f"k={k}: built weights {[round(x, 9) for x in coeff[:m]]} / coeff_D {coeff_D} differ from Niklasson Table I {[round(x, 9) for x in want]} / {sk}")
+        ctx.check(len(coeff) == 2 * (k + 1), "R1", md, init, "XL_BOMD.__init__", f"coeffs[{k}] length", f"k={k}: k+1 dissipation coefficients, stored twice for the circular window",
+                  f"k={k}: {len(coeff)} stored coefficients")
+        # sum_j c_j = 0  <=>  sum(coeff[:m]) = 1 - kappa
+        ctx.check(abs(sum(coeff[:m]) - (1.0 - coeff_D)) < 1e-12, "R1", md, init, "XL_BOMD.__init__", f"coeffs[{k}] sum", f"k={k}: sum_j c_j = 0 (D = P is a fixed point)",
+                  f"k={k}: the dissipation coefficients do not sum to zero (sum of weights {sum(coeff[:m])}, expected {1.0 - coeff_D}): a stationary auxiliary density would drift")
+        worst, worst_ke = 0.0, None
+        for t in range(1, 201):
+            ke = coeff_D * t / 200.0
+            coef = list(coeff[:m])
+            coef[0] += coeff_D - ke
+            poly = [1.0] + [-x for x in coef]
+            r = np.abs(np.roots(poly)).max()
+            if r > worst:
+                worst, worst_ke = float(r), ke
+        ctx.check(worst <= 1.0 + 1e-4, "R1", md, init, "XL_BOMD.__init__", f"coeffs[{k}] root locus", f"k={k}: max |root| over kappa_eff in (0,{coeff_D}] is {worst:.6f} <= 1",
+                  f"k={k}: recurrence is linearly unstable: |root| = {worst:.6f} at kappa_eff = {worst_ke:.4f}")
+        ctx.check(same, "R2", md, init, "XL_BOMD.__init__", f"coeff(k={k})", f"k={k}: coeff = [2-kappa+alpha c0, alpha c1-1, alpha c2, ...] repeated twice, coeff_D = kappa, m = k+1",
+                  f"k={k}: built coefficients are not the published recurrence")
+        ctx.check(abs(coeff_D + sum(coeff[:m]) - 1.0) < 1e-12, "R2", md, init, "XL_BOMD.__init__", f"sum(k={k})",
+                  f"k={k}: coeff_D + sum(coeff) = 1 (stationary density is reproduced)", f"k={k}: coefficients sum to {coeff_D + sum(coeff[:m])}")
+    ctx.floor("R1", 7 * 4)
+
+
+def run(ctx):
+    import numpy as np
+    import sympy as sp
+    repo = ctx.repo
+    md = repo.mod(MD)
+    ctx.rule("R1", "coefficient table equals Niklasson Table I, sum c = 0, root locus inside the unit disk (exhaustive k=3..9)")
+    ctx.rule("R2", "executed recurrence: coefficients built by __init__ and every propagate variant sum to one; D coefficient = delta*kappa")
+    ctx.rule("R3", "circular history buffer: write slot, coefficient window and restart read agree for every phase and every m")
+    ctx.rule("R4", "shadow energy E(D,P) with D=P equals the SCF energy expression")
+    ctx.rule("R5", "history initialisation and resume")
+
+    try:
+        _r1_r2_literal(ctx, md, np)
+    except AnalysisError as e_:
+        # the constructor is not in the literal-table shape (table moved to a module constant, weights built by a helper, ...): the coefficients it builds are obtained by
+        # interpreting the constructor for every k (sa.npsym) and decided by value
+        ctx.note(f"XL_BOMD.__init__ not in the literal-table shape ({str(e_)[:80]}); coefficients obtained by interpreting the constructor for k = 3..9")
+        _r1_r2_interpreted(ctx, md, np)
     # propagate variants as linear forms
     D, P, R, W, H = sp.symbols("D P R W H")
     variants = [q for q in md.functions if q.split(".")[-1].startswith("_propagate_") and "<locals>" not in q]
@@ -348,15 +398,15 @@ def run(ctx):
         return int_eval(e2, env)
     # the local that holds the history length on restart: the one defined from ...['k']
     mlen = [nm for nm, v in rdefs.items() if any(ck_key(x) == "k" for x in ast.walk(v))]
-    if len(mlen) != 1:
-        raise AnalysisError(f"run_from_checkpoint: history length local not found ({mlen})")
+    # (when the history length has no local of its own the read slot alone is decided: equality with the written slot for every phase and every m pins the modulus as well)
+    mlen = mlen if len(mlen) == 1 and not any(isinstance(x, ast.Subscript) and norm(x.value) in ("Pt", "es_amp_t") for x in ast.walk(rdefs[mlen[0]])) else []
     for rd in reads:
         bad = []
         for m in range(4, 11):
             k = m - 1
             for done in range(1, 3 * m):
                 vals = {"k": k, "step_done": done}
-                xl_m = closure_eval(rdefs[mlen[0]], vals)
+                xl_m = closure_eval(rdefs[mlen[0]], vals) if mlen else m
                 slot = closure_eval(rd.slice, vals)
                 last_c = int_eval(cexpr0, {"self.m": m, spn: done - 1})
                 last_slot = int_eval(wexpr0, {"self.m": m, spn: done - 1})
@@ -375,8 +425,16 @@ def run(ctx):
     ctx.check(bool(mdef) and norm(mdef[0].value).replace(" ", "") == "self.k+1", "R3", md, ini, "XL_BOMD.__init__", "self.m", "history length m = k + 1", "m != k+1")
 
     # ---------------------------------------------------------------- R4
-    from ..assembly import check_energy_functions
+    from ..assembly import check_energy_functions, interpreted_core_parameters
     check_energy_functions(ctx, "R4", which=("xl",))
+    # the nuclear part of the shadow energy uses the same core-core parameter tuple as the SCF energy (interpreted per method, shared with C06-R4)
+    for rel_, qual_, line_, method_, ok_, msg_ in interpreted_core_parameters(repo):
+        if "xlbomd" not in rel_:
+            continue
+        m_ = repo.mod(rel_)
+        ctx.check(ok_, "R4", m_, m_.func(qual_), qual_, f"core-core parameters ({method_})",
+                  f"{qual_}: pair_nuclear_energy receives the same parameter tuple as in the SCF energy for {method_}",
+                  msg_ + ": the XL-BOMD energy at P = D differs from the SCF energy (the dynamics does not converge to the Born-Oppenheimer surface of the SCF model)")
 
     # ---------------------------------------------------------------- R5
     xi = md.func("XL_BOMD.initialize")
